@@ -200,6 +200,11 @@ type Prog struct {
 	Family string `json:"family,omitempty"`
 	Src    string `json:"src,omitempty"`   // when set: the worker compiles this Sysl source with the real parser instead of building the protobuf
 	Typed  bool   `json:"typed,omitempty"` // built by the typed generator inside the modelled fragment: judged by the oracle
+	Lax    bool   `json:"lax,omitempty"`   // reaches something the Coq model has no body for (regexp helpers, Title, Replace): its "not covered" is accepted
+	// call resolution: CallOut = field of the main view's result holding the value of a call whose callee, evaluated
+	// directly by EvaluateView on the same argument values, is the program Direct
+	CallOut string `json:"callout,omitempty"`
+	Direct  *Prog  `json:"direct,omitempty"`
 }
 
 func eName(n string) *Expr             { return &Expr{K: "name", Name: n} }
